@@ -36,6 +36,23 @@ fn produce(prog: &Program) -> Result<(Vec<BddNode>, Vec<BddNode>), String> {
         sh.step(op).map_err(|e| format!("producer step {i}: {e}"))?;
     }
     let nodes = sh.bdd.nodes.clone();
+    // a store without a receiver (here: the producer itself) answers a poll by what it holds
+    for t in 0..nodes.len() + 3 {
+        let before = sh.bdd.nodes.len();
+        let ret = sh.bdd.recv(Term(t));
+        if ret != (t < before) || sh.bdd.nodes.len() != before {
+            return Err(format!(
+                "producer (no receiver attached) holding {before} nodes: poll({t}) answered {ret}{}",
+                if sh.bdd.nodes.len() != before { " and changed the table" } else { "" }
+            ));
+        }
+    }
+    let mut plain = Bdd::new();
+    for t in 0..4 {
+        if plain.recv(Term(t)) != (t < 2) {
+            return Err(format!("fresh store without channels: poll({t}) answered {}", t >= 2));
+        }
+    }
     drop(sh);
     let stream: Vec<BddNode> = r.try_iter().collect();
     Ok((nodes, stream))
@@ -171,6 +188,24 @@ fn c19_check(c: &StreamCase, st: &mut Stats) -> CheckResult {
         poll(&mut relay, m + 2, m + 2, &nodes)?; // beyond the last handle: consumes everything
         if relay.bdd.nodes != nodes {
             return Err("after draining the channel the node tables differ".into());
+        }
+        // the drained mirror becomes a working store: repair step, then the producer's operations again
+        // (the mirror's own bookkeeping was not maintained while receiving; fix_import rebuilds it)
+        if !c.chain && c.sched.len() % 2 == 0 {
+            let mut mirror = Bdd::from(Vec::new());
+            std::mem::swap(&mut mirror, &mut relay.bdd);
+            mirror.fix_import();
+            let mut sh = Shadow::with_bdd(c.prog.k as usize, mirror).with_spread(c.prog.spread);
+            for (i, op) in c.prog.ops.iter().enumerate().take(12) {
+                sh.step(op).map_err(|e| format!("drained mirror used as a store after fix_import, step {i}: {e}"))?;
+            }
+            sh.invariants().map_err(|e| format!("drained mirror used as a store after fix_import: {e}"))?;
+            for (h, _, _) in &sh.issued {
+                let _ = sh.bdd.var_dependencies(*h);
+                let _ = sh.bdd.paths(*h, true);
+            }
+            st.label("mirror_used_as_store_after_fix_import");
+            relay.bdd = sh.bdd;
         }
         if let (true, Some(last)) = (c.chain, last.as_mut()) {
             if m > 0 {
@@ -565,6 +600,7 @@ pub fn c20(tier: Tier) -> PropSpec {
                 },
                 c20_check,
             ),
+            Box::new(Logged(EnumPart::new("exhaustive-with-logging", || all_vectors(5), c20_check))),
             Part::new(
                 "lazy-large",
                 tier.pick(3000, 30000),
